@@ -1199,10 +1199,12 @@ fn unify_case(drv: &mut Driver, seed: u64, index: u64, rep: &mut Report) {
                     4 if p.chance(1, 6) => format!("(e {})", p.below(2)),
                     _ => ty(&mut p, &vars, ndefs, 0),
                 };
+                // mostly `unify_inner`; sometimes `unify(expected, found)` as the checker calls it
+                let op = if p.chance(1, 4) { "unifytop" } else { "unify" };
                 if p.chance(1, 2) {
-                    ops.push(format!("(unify {a} {b})"));
+                    ops.push(format!("({op} {a} {b})"));
                 } else {
-                    ops.push(format!("(unify {b} {a})"));
+                    ops.push(format!("({op} {b} {a})"));
                 }
             }
         }
